@@ -135,17 +135,11 @@ theorem C04_unknown_ignored_block (env : Env) (N : Nat) (name : String) (fs : Li
   decVar_block_unknown_ignored env N name fs ovs items tail tag req F hfind hfs holds hadm hsl htag hF
     r r' t t' h h'
 
-/-- **C04_unknown_ignored_partial** (`st.ReadFrom(readBuf)`): the same outcome — decoded struct or
-    error — with and without the unknown fields.
-
-    Partial w.r.t. `C04_unknown_ignored_full` in that (a) the known members' bytes are
-    characterised by `HeadOk`/`SelfDelimiting` instead of being `encVar` of a well-typed value
-    (what is missing is the C03 round trip per member, which yields both), and (b) two model
-    artefacts are hypotheses: the fuel `decFuel` of either run exceeds `N + #members`, and it is
-    large enough that `ResetDefault` is not cut short by it (`hstable`; `C04_resetDefault_stable`
-    discharges this from the struct-nesting depth of the target for schemas without fixed-size
-    arrays of structs). -/
-theorem C04_unknown_ignored_partial (env : Env) (N : Nat) (S : String) (fs : List Field)
+/-- **C04_unknown_ignored_of_stable** (`st.ReadFrom(readBuf)`, most general form): the same outcome
+    — decoded struct or error — with and without the unknown fields, for any schema, provided the
+    two amounts of model fuel give the same `ResetDefault` of the target (`hstable`).
+    `C04_resetDefault_stable_acyclic` / `C04_resetDefault_stable` discharge `hstable`. -/
+theorem C04_unknown_ignored_of_stable (env : Env) (N : Nat) (S : String) (fs : List Field)
     (ovs : List Val) (items : List (List WFField × Slot)) (tail : List WFField)
     (r r' : Reader) (t t' : Bytes)
     (hfind : env.find S = some fs) (hfs : fieldsOf items = fs)
@@ -159,38 +153,78 @@ theorem C04_unknown_ignored_partial (env : Env) (N : Nat) (S : String) (fs : Lis
   decStruct_unknown_ignored env N S fs ovs items tail r r' t t' hfind hfs holds hstable hadm hsl
     hF hF' ht ht' h h'
 
-/-- **C04_unknown_ignored_enc_partial**: the same with the known members given as `encVar` of the
-    members of a value (`encSlots`), compared against `encStruct` of that value: merging unknown
-    fields into the encoding of a value does not change what `ReadFrom` returns.  The per-member
-    assumptions remain (`hsl`); they are exactly what the C03 round trip has to deliver. -/
-theorem C04_unknown_ignored_enc_partial (env : Env) (N : Nat) (S : String) (fs : List Field)
-    (vals ovs : List Val) (gaps : List (List WFField)) (tail : List WFField)
-    (r r' : Reader) (t t' : Bytes)
-    (hfind : env.find S = some fs) (hlo : ovs.length = fs.length) (hlv : vals.length = fs.length)
-    (hlg : gaps.length = fs.length)
-    (hstable : resetDefault env (decFuel env r') fs ovs = resetDefault env (decFuel env r) fs ovs)
-    (hadm : Admissible 0
-      (gaps.zip (encSlots env fs (resetDefault env (decFuel env r) fs ovs) vals)) tail)
-    (hsl : ∀ s ∈ encSlots env fs (resetDefault env (decFuel env r) fs ovs) vals,
-      s.HeadOk ∧ s.SelfDelimiting env N)
-    (hF : N + fs.length < decFuel env r) (hF' : N + fs.length < decFuel env r')
-    (ht : Terminated t) (ht' : Terminated t')
-    (h : r.rest = merged
-      (gaps.zip (encSlots env fs (resetDefault env (decFuel env r) fs ovs) vals)) tail ++ t)
-    (h' : r'.rest = encStruct env S (.struct vals) ++ t') :
-    (decStruct env S (.struct ovs) r).1 = (decStruct env S (.struct ovs) r').1 :=
-  decStruct_unknown_ignored_enc env N S fs vals ovs gaps tail r r' t t' hfind hlo hlv hlg hstable
-    hadm hsl hF hF' ht ht' h h'
+/-- **C04_resetDefault_stable_acyclic**: for every schema whose by-value struct nesting (members
+    and elements of fixed-size arrays) is acyclic (`EnvAcyclic`; Go rejects the other schemas at
+    compile time: `invalid recursive type`), `ResetDefault` of any struct on ANY target gives the
+    same result for any two amounts of model fuel above the rank `rk S` of the struct (its by-value
+    nesting depth; `rk S ≤ env.length`). -/
+theorem C04_resetDefault_stable_acyclic (env : Env) (rk : String → Nat) (hac : EnvAcyclic env rk)
+    (S : String) (fs : List Field) (ovs : List Val) (F F' : Nat) (hfind : env.find S = some fs)
+    (hF : rk S < F) (hF' : rk S < F') :
+    resetDefault env F' fs ovs = resetDefault env F fs ovs :=
+  resetDefault_stable_acyclic env rk hac S fs hfind ovs F' F hF' hF
 
-/-- **C04_resetDefault_stable**: the `hstable` hypothesis above holds whenever no struct of the
-    schema has a fixed-size array of structs as a member and both fuels exceed the struct-nesting
-    depth of the target (`listDepth ovs`; 0 for a target without nested struct members, and
-    `decFuel ≥ 6`). -/
+/-- **C04_resetDefault_stable**: the same for schemas without fixed-size arrays of structs (acyclic
+    or not), for fuels above the struct-nesting depth of the target (`listDepth ovs`; 0 for a
+    target without nested struct members, and `decFuel ≥ 6`). -/
 theorem C04_resetDefault_stable (env : Env) (hna : NoStructArrays env) (S : String) (fs : List Field)
     (ovs : List Val) (F F' : Nat) (hfind : env.find S = some fs)
     (hdep : listDepth ovs < F) (hdep' : listDepth ovs < F') :
     resetDefault env F' fs ovs = resetDefault env F fs ovs :=
   resetDefault_fuel env hna _ _ fs ovs (hna S fs hfind) hdep' hdep
+
+/-- **C04_unknown_ignored_partial** (`st.ReadFrom(readBuf)`, acyclic schemas): the same outcome with
+    and without the unknown fields, for ANY target.
+
+    Partial w.r.t. `C04_unknown_ignored_full` in that (a) the known members' bytes are
+    characterised by `HeadOk`/`SelfDelimiting` instead of being `encVar` of a well-typed value
+    (the C03 round trip per member yields both: Props/C04RT.lean), and (b) the model fuel `decFuel`
+    of either run is assumed to exceed `N + #members` and the rank `rk S ≤ env.length` of the
+    struct (model artefacts: `decFuel` is `(width+3)·(size+2) ≥ 6`, which does not dominate the
+    by-value nesting depth of a schema, which `ResetDefault` descends without consuming input;
+    `C04_rank_small`: no condition for nesting depth ≤ 5). -/
+theorem C04_unknown_ignored_partial (env : Env) (rk : String → Nat) (hac : EnvAcyclic env rk)
+    (N : Nat) (S : String) (fs : List Field)
+    (ovs : List Val) (items : List (List WFField × Slot)) (tail : List WFField)
+    (r r' : Reader) (t t' : Bytes)
+    (hfind : env.find S = some fs) (hfs : fieldsOf items = fs)
+    (holds : oldsOf items = resetDefault env (decFuel env r) fs ovs)
+    (hadm : Admissible 0 items tail) (hsl : ∀ p ∈ items, p.2.HeadOk ∧ p.2.SelfDelimiting env N)
+    (hF : N + items.length < decFuel env r) (hF' : N + items.length < decFuel env r')
+    (hL : rk S < decFuel env r) (hL' : rk S < decFuel env r')
+    (ht : Terminated t) (ht' : Terminated t')
+    (h : r.rest = merged items tail ++ t) (h' : r'.rest = merged (strip items) [] ++ t') :
+    (decStruct env S (.struct ovs) r).1 = (decStruct env S (.struct ovs) r').1 :=
+  decStruct_unknown_ignored env N S fs ovs items tail r r' t t' hfind hfs holds
+    (resetDefault_stable_acyclic env rk hac S fs hfind ovs _ _ hL' hL) hadm hsl hF hF' ht ht' h h'
+
+/-- `hL`, `hL'` hold for every reader when the struct nests at most 5 deep by value (`decFuel ≥ 6`) -/
+theorem C04_rank_small (env : Env) (r : Reader) (k : Nat) (h : k ≤ 5) : k < decFuel env r := by
+  have := decFuel_ge_six env r; omega
+
+/-- **C04_unknown_ignored_enc_partial**: the same with the known members given as `encVar` of the
+    members of a value (`encSlots`), compared against `encStruct` of that value: merging unknown
+    fields into the encoding of a value does not change what `ReadFrom` returns.  The per-member
+    assumptions remain (`hsl`); they are exactly what the C03 round trip has to deliver. -/
+theorem C04_unknown_ignored_enc_partial (env : Env) (rk : String → Nat) (hac : EnvAcyclic env rk)
+    (N : Nat) (S : String) (fs : List Field)
+    (vals ovs : List Val) (gaps : List (List WFField)) (tail : List WFField)
+    (r r' : Reader) (t t' : Bytes)
+    (hfind : env.find S = some fs) (hlo : ovs.length = fs.length) (hlv : vals.length = fs.length)
+    (hlg : gaps.length = fs.length)
+    (hadm : Admissible 0
+      (gaps.zip (encSlots env fs (resetDefault env (decFuel env r) fs ovs) vals)) tail)
+    (hsl : ∀ s ∈ encSlots env fs (resetDefault env (decFuel env r) fs ovs) vals,
+      s.HeadOk ∧ s.SelfDelimiting env N)
+    (hF : N + fs.length < decFuel env r) (hF' : N + fs.length < decFuel env r')
+    (hL : rk S < decFuel env r) (hL' : rk S < decFuel env r')
+    (ht : Terminated t) (ht' : Terminated t')
+    (h : r.rest = merged
+      (gaps.zip (encSlots env fs (resetDefault env (decFuel env r) fs ovs) vals)) tail ++ t)
+    (h' : r'.rest = encStruct env S (.struct vals) ++ t') :
+    (decStruct env S (.struct ovs) r).1 = (decStruct env S (.struct ovs) r').1 :=
+  decStruct_unknown_ignored_enc env N S fs vals ovs gaps tail r r' t t' hfind hlo hlv hlg
+    (resetDefault_stable_acyclic env rk hac S fs hfind ovs _ _ hL' hL) hadm hsl hF hF' ht ht' h h'
 
 /-- full strength (stated, not proved here): for every schema, every well-typed value `vals`, every
     target `ovs`, every admissible interleaving with unknown well-formed fields, decoding the
@@ -251,21 +285,20 @@ example :
   have hf1 : decFuel C04_exEnv (Reader.mk0 (merged C04_exItems C04_exTail)) = 89 + 1 := by decide
   have hf2 : decFuel C04_exEnv (Reader.mk0 (merged (strip C04_exItems) [])) = 19 + 1 := by decide
   have hr : ∀ x : Bytes, (Reader.mk0 x).rest = x ++ [] := by intro x; simp [Reader.rest, Reader.mk0]
-  refine C04_unknown_ignored_partial C04_exEnv 1 "S" C04_exFs _ C04_exItems C04_exTail _ _ [] []
-    hfind rfl ?_ ?_ ?_ ?_ ?_ ?_ (.inl rfl) (.inl rfl) (hr _) (hr _)
+  have hac : EnvAcyclic C04_exEnv (fun _ => 0) := by
+    intro s ifs hs
+    refine ⟨Nat.zero_le _, fun g hg s' ifs' href _ => ?_⟩
+    simp only [C04_exEnv, Env.find] at hs
+    split at hs
+    · cases hs
+      simp only [C04_exFs, List.mem_cons, List.mem_nil_iff, or_false] at hg
+      rcases hg with rfl | rfl <;> rcases href with h | ⟨n, h⟩ <;> cases h
+    · cases hs
+  refine C04_unknown_ignored_partial C04_exEnv (fun _ => 0) hac 1 "S" C04_exFs _ C04_exItems
+    C04_exTail _ _ [] [] hfind rfl ?_ ?_ ?_ ?_ ?_ ?_ ?_ (.inl rfl) (.inl rfl) (hr _) (hr _)
   · rw [hf1]
     simp [C04_exFs, resetDefault_cons, resetDefault_nil_left, resetMember, oldsOf, C04_exItems,
       zeroOf, zeroVal, scalarZero]
-  · refine C04_resetDefault_stable C04_exEnv ?_ "S" C04_exFs _ _ _ hfind ?_ ?_
-    · intro s ifs hs g hg
-      simp only [C04_exEnv, Env.find] at hs
-      split at hs
-      · cases hs
-        simp only [C04_exFs, List.mem_cons, List.mem_nil_iff, or_false] at hg
-        rcases hg with rfl | rfl <;> rfl
-      · cases hs
-    · rw [hf1]; simp [listDepth, valDepth]
-    · rw [hf2]; simp [listDepth, valDepth]
   · simp +decide [Admissible, C04_exItems, C04_exTail]
   · intro p hp
     simp only [C04_exItems, List.mem_cons, List.mem_nil_iff, or_false] at hp
@@ -275,6 +308,28 @@ example :
     · exact ⟨.inl rfl, selfDelimiting_absent _ _ rfl rfl rfl⟩
   · rw [hf1]; decide
   · rw [hf2]; decide
+  · rw [hf1]; decide
+  · rw [hf2]; decide
+
+/-- the rank bound is tight: below the rank of the struct the model's `ResetDefault` is cut short
+    (fuel 1 leaves the stale string of the nested struct, fuel 2 resets it) -/
+example :
+    resetDefault [("A", [⟨0, false, .struct "B", none⟩]), ("B", [⟨0, false, .str, none⟩])] 1
+        [⟨0, false, .struct "B", none⟩] [.struct [.str [Tars.byte 1]]] = [.struct [.str [Tars.byte 1]]] ∧
+    resetDefault [("A", [⟨0, false, .struct "B", none⟩]), ("B", [⟨0, false, .str, none⟩])] 2
+        [⟨0, false, .struct "B", none⟩] [.struct [.str [Tars.byte 1]]] = [.struct [.str []]] := by
+  constructor
+  · simp [resetDefault_cons, resetDefault_nil_left, resetMember, Env.find, resetDefault_zero]
+  · simp [resetDefault_cons, resetDefault_nil_left, resetMember, Env.find, zeroOf, zeroVal, scalarZero]
+/-- non-vacuity of `C04_resetDefault_stable`: the example schema has no arrays of structs -/
+example : NoStructArrays C04_exEnv := by
+  intro s ifs hs g hg
+  simp only [C04_exEnv, Env.find] at hs
+  split at hs
+  · cases hs
+    simp only [C04_exFs, List.mem_cons, List.mem_nil_iff, or_false] at hg
+    rcases hg with rfl | rfl <;> rfl
+  · cases hs
 
 /-! ## 4. Absent members -/
 
